@@ -146,8 +146,38 @@ func judgeNavigation(res *core.CaseResult, w *dbgWorld, s *source, r *rand.Rand,
 	cs := w.snap(id)
 	var log []string
 	tools := []types.ToolName{types.ToolFilterCanceledTx, types.ToolFilterQueuedTx, types.ToolFilterAutoTx, types.ToolFilterEmptyTx}
-	for k := 0; k < cmds; k++ {
+	for k := 0; k < cmds+2; k++ {
 		before := w.view()
+		if k >= cmds {
+			// directed: from the last (first) shown record a step forward
+			// (back) has nowhere to go
+			if !before.active || len(before.filtered) == 0 {
+				break
+			}
+			edge := before.filtered[len(before.filtered)-1] + 1
+			step, name := ss.UserFwd, "edge-fwd"
+			if k == cmds+1 {
+				edge, step, name = before.filtered[0]+1, ss.UserBack, "edge-back"
+			}
+			w.cmd(ss.ScrollToTx, &types.A{CursorTx1: edge})
+			at := w.view()
+			w.cmd(step, nil)
+			after := w.view()
+			log = append(log, fmt.Sprintf("scroll(%d)", edge), name)
+			res.Evals++
+			if name == "edge-fwd" && at.cursor == edge && after.cursor != edge {
+				res.Violate("C16/nav/fwd-at-last-shown", fmt.Sprintf("forward from the last shown record (cursor %d of %d records, %d hidden after it) moved the cursor to %d (filters %v; commands: %s)",
+					edge, at.n, at.n-edge, after.cursor, fnames(at.filters), strings.Join(log, " ")), nil)
+				return
+			}
+			if name == "edge-back" && at.cursor == edge && after.cursor != 0 && after.cursor != edge {
+				res.Violate("C16/nav/back-at-first-shown", fmt.Sprintf("back from the first shown record (cursor %d) moved the cursor to %d (filters %v; commands: %s)",
+					edge, after.cursor, fnames(at.filters), strings.Join(log, " ")), nil)
+				return
+			}
+			res.Key("nav", name, at.n-edge > 0)
+			continue
+		}
 		var name string
 		switch r.IntN(7) {
 		case 0, 1:
